@@ -4,7 +4,7 @@ import io
 
 from hypothesis import strategies as st
 
-from pv import streams
+from pv import core, streams
 from pv.core import Fail, Res, Sub
 from pv.doubles import ScriptedSocket
 
@@ -61,6 +61,7 @@ class HistRunner:
         k = self.k
         self.k += 1
         kind = op[0]
+        core.note_input(16 + (op[1] if kind == "read" else 0) // 64)
         if kind == "send":
             sock.push(bytes.fromhex(op[1]))
             return
@@ -76,6 +77,7 @@ class HistRunner:
             return
         l0 = len(sock.log)
         buf0 = len(w.buffer)
+        h0 = len(sock.handed)
         if kind == "read":
             n = op[1]
             r = w.read(n)
@@ -85,6 +87,10 @@ class HistRunner:
             bad = [o for o in events if o in ("eof", "timeout", "oserror")]
             if len(r) > n:
                 raise Fail("read-returns-more-than-requested", f"read({n}) returned {len(r)} bytes")
+            if len(r) < n and buf0 + len(sock.handed) - h0 >= n:
+                # "fewer only when the peer has closed or a timeout occurs": the event must be the reason for the
+                # shortfall - here the wrapper held the requested count and still came back short
+                raise Fail("short-read-although-enough-bytes-held", f"read({n}) returned {len(r)} bytes although the wrapper held {buf0} and received {len(sock.handed) - h0} more before the {bad[:1]} (bufsize {self.bufsize})")
             if len(r) < n and not bad:
                 raise Fail("short-read-without-cause", f"read({n}) returned {len(r)} bytes although no close / timeout / error occurred (buffer held {buf0}, bufsize {self.bufsize})")
             self.delivered += r
